@@ -1,9 +1,14 @@
 (* C18: build.Context as a state machine over builder calls (build/context.go, pseudo.go,
    zinstructions.go addinstruction, error.go) and build.Main (cli.go). *)
-From Avo Require Import Base.Prelude Base.Str Model.Data.
+From Avo Require Import Base.Prelude Base.Str Model.Data Model.Layout.
 Open Scope Z_scope.
 
 Inductive comp_outcome := CompOK | CompUnknown | CompNonPrimitive | CompNoMov.
+(* outcome of Load(component reached by a chain of steps, 64-bit GP register) for a parameter of type t
+   whose leaves are integer kinds: decided by the component algebra of Model/Layout.v (C07) *)
+Definition path_outcome (t : ty) (p : list step) : comp_outcome :=
+  match resolve (apply_path true (param_comp "v" 0 t) p) with Some _ => CompOK | None => CompUnknown end.
+
 Inductive bop :=
 | BFunction
 | BAttributes | BDoc | BPragma | BSignature (ok : bool)
